@@ -70,3 +70,35 @@ Section Relay.
     destruct payload; reflexivity.
   Qed.
 End Relay.
+
+(* C06: nothing is written in answer to a method-selection reply that does not select method 0 *)
+Section Selection.
+  Variable c : cfg.
+  Definition awaiting_method : mstate := {| st := sent_version; buf := []; has_sender := false; fired := false |}.
+  Definition no_write (es : list ev) : bool :=
+    forallb (fun e => match e with EWrote _ => false | _ => true end) es.
+
+  Lemma no_request_unless_selected v m rest :
+    (code v =? 5) && (code m =? 0) = false ->
+    let '(_, es, _) := op_recv c awaiting_method (v :: m :: rest) in no_write es = true.
+  Proof.
+    intros H. unfold op_recv, awaiting_method. cbn [buf app set_buf st has_sender fired].
+    unfold FUEL.
+    change (fire c 12 ?s got_data ANone) with
+      (outputs (output_body c (fire c 11)) (set_st s sent_version) [_parse_version_reply] ANone).
+    cbn [outputs]. unfold output_body at 1. cbn [buf set_st st has_sender fired set_buf].
+    destruct (code v =? 5) eqn:Ev; cbn [andb] in H |- *.
+    - rewrite H. cbn [orb]. destruct (code m =? 2) eqn:E2.
+      + (* method 2: accepted by the parser, refused by the assertion in _send_request *)
+        change (fire c 11 ?s version_reply ?a) with
+          (outputs (output_body c (fire c 10)) (set_st s sent_request) [_send_request] a).
+        cbn [outputs]. unfold output_body at 1.
+        apply N.eqb_eq in E2. rewrite E2. cbn. reflexivity.
+      + change (fire c 11 ?s version_error ?a) with
+          (outputs (output_body c (fire c 10)) (set_st s abort) [_disconnect] a).
+        cbn. reflexivity.
+    - change (fire c 11 ?s version_error ?a) with
+        (outputs (output_body c (fire c 10)) (set_st s abort) [_disconnect] a).
+      cbn. reflexivity.
+  Qed.
+End Selection.
